@@ -85,6 +85,7 @@ Derive2(r) ==
   IN  Memo([p |-> p, q |-> q, ipq |-> ipq,
             pa |-> Sub(Pc, r.A), pb |-> Sub(Pc, r.B), qc |-> Sub(Qc, r.C), qd |-> Sub(Qc, r.D),
             wp |-> Sub(Wc, Pc), wq |-> Sub(Wc, Qc), pq |-> Sub(Pc, Qc),
+            ab |-> Sub(r.A, r.B), cd |-> Sub(r.C, r.D),
             v1 |-> <<Mul(ip, h), Mul(Sub(ipq, ip), h)>>,       \* Var x1 as a polynomial in s
             v2 |-> <<Mul(iq, h), Mul(Sub(ipq, iq), h)>>,
             cv |-> <<0, Mul(ipq, h)>>])
